@@ -31,8 +31,12 @@ def merge (vals new : List (String × JVal)) : List (String × JVal) :=
 
 def hexd (n : Nat) : Char := if n < 10 then Char.ofNat (48 + n) else Char.ofNat (87 + n)
 
-/-- `encoding/json` string escaping (HTML-safe variant, as `json.Marshal` uses) for valid UTF-8 text -/
+/-- `encoding/json` string escaping (HTML-safe variant, as `json.Marshal` uses). Go strings are byte strings: a byte
+that is not part of a valid UTF-8 sequence is written as `\ufffd` by the encoder (one per byte) but stays what it is in the
+plain fallback text. The model's texts are Lean `String`s; the code points U+F780 … U+F7FF (private use) stand for the
+bytes 0x80 … 0xFF *outside* valid UTF-8 (the harness maps them in both directions). -/
 def escChar (c : Char) : List Char :=
+  if 0xF780 ≤ c.toNat ∧ c.toNat ≤ 0xF7FF then "\\ufffd".toList else
   if c = '"' then ['\\', '"'] else if c = '\\' then ['\\', '\\']
   else if c = '\n' then ['\\', 'n'] else if c = '\r' then ['\\', 'r'] else if c = '\t' then ['\\', 't']
   else if c.toNat = 8 then ['\\', 'b'] else if c.toNat = 12 then ['\\', 'f']
